@@ -640,16 +640,40 @@ func (cs codecSide) instrEvents(f *ssa.Function, in ssa.Instruction) []*wireEven
 	return []*wireEvent{ev}
 }
 
-func skippable(e *wireEvent) bool { return e.kind == "rawvar" }
+// automatonBusy guards against following recursive helpers.
+var automatonBusy = map[*ssa.Function]bool{}
+
+func ssaCallee(in ssa.Instruction) *ssa.Function {
+	if ci, ok := in.(ssa.CallInstruction); ok {
+		return ci.Common().StaticCallee()
+	}
+	return nil
+}
+
+func skippable(e *wireEvent) bool { return e.kind == "rawvar" || e.kind == "ε" }
 
 func (cs codecSide) automaton(f *ssa.Function) *wireAutomaton {
 	a := &wireAutomaton{}
 	first := map[ssa.Instruction]int{}
 	chainNext := map[int]int{} // event -> next event of the same instruction's chain
 	lastOf := map[int]bool{}
+	// a package function that is handed the encoder/decoder is followed: its own automaton is spliced in between
+	// two silent events at the call (enter, exit), once per state in which the call is reached
+	helperAt := map[int]*ssa.Function{} // enter event -> helper
+	exitOf := map[int]int{}
 	for _, b := range f.Blocks {
 		for _, in := range b.Instrs {
 			evs := cs.instrEvents(f, in)
+			if len(evs) == 1 && strings.HasPrefix(evs[0].kind, "call(") {
+				if h := ssaCallee(in); h != nil && len(h.Blocks) > 0 && h.Pkg == f.Pkg && h != f && !automatonBusy[h] {
+					k := len(a.events)
+					first[in] = k
+					a.events = append(a.events, &wireEvent{in: in, kind: "ε", field: ""}, &wireEvent{in: in, kind: "ε", field: ""})
+					helperAt[k], exitOf[k] = h, k+1
+					lastOf[k+1] = true
+					continue
+				}
+			}
 			for i, ev := range evs {
 				k := len(a.events)
 				if i == 0 {
@@ -832,11 +856,44 @@ func (cs codecSide) automaton(f *ssa.Function) *wireAutomaton {
 		}
 		sort.Ints(a.next[state])
 	}
+	manual := map[int]bool{}
 	for si := 0; si < len(keys); si++ {
 		k := keys[si]
+		if manual[si] {
+			continue
+		}
 		if k.ev < 0 {
 			if len(f.Blocks) > 0 {
 				explore(si, f.Blocks[0], 0, "")
+			}
+			continue
+		}
+		if h, ok := helperAt[k.ev]; ok {
+			// splice a copy of the helper's automaton: enter -> helper states -> (accepting ones) -> exit
+			automatonBusy[f] = true
+			ah := cs.automaton(h)
+			delete(automatonBusy, f)
+			exit := addState(skey{exitOf[k.ev], k.facts})
+			local := map[int]int{0: si}
+			stateFor := func(j int) int {
+				if id, ok := local[j]; ok {
+					return id
+				}
+				e := *ah.events[ah.stateEv[j]]
+				a.events = append(a.events, &e)
+				id := addState(skey{len(a.events) - 1, fmt.Sprintf("%s\x00h%d", k.facts, si)})
+				manual[id] = true
+				local[j] = id
+				return id
+			}
+			for j := range ah.next {
+				from := stateFor(j)
+				for _, t := range ah.next[j] {
+					a.next[from] = append(a.next[from], stateFor(t))
+				}
+				if ah.accept[j] {
+					a.next[from] = append(a.next[from], exit)
+				}
 			}
 			continue
 		}
@@ -878,6 +935,17 @@ func (cs codecSide) automaton(f *ssa.Function) *wireAutomaton {
 				}
 			}
 		}
+	}
+	// silent events (helper entry/exit) carry no symbol: after the closure above every state that reached one also
+	// reaches its successors directly, so the edges into them are dropped
+	for s := range a.next {
+		kept := a.next[s][:0:0]
+		for _, t := range a.next[s] {
+			if a.events[a.stateEv[t]].kind != "ε" {
+				kept = append(kept, t)
+			}
+		}
+		a.next[s] = kept
 	}
 	return a
 }
@@ -1260,6 +1328,33 @@ func (cs codecSide) loopCounts(f *ssa.Function, decode bool) map[string]string {
 				continue
 			}
 			bo, ok := ifi.Cond.(*ssa.BinOp)
+			if ok && (bo.Op == token.GTR || bo.Op == token.NEQ) {
+				// a countdown: remaining := n; remaining > 0; remaining-- runs n times
+				if p, isP := stripConv(bo.X).(*ssa.Phi); isP && p.Block() == h {
+					if z, isC := constInt(bo.Y); isC && z == 0 {
+						var init ssa.Value
+						okDown := true
+						for i, e := range p.Edges {
+							if !lh[h.Preds[i]][h] {
+								init = e
+								continue
+							}
+							sub, isSub := stripConv(e).(*ssa.BinOp)
+							if !isSub || sub.Op != token.SUB || stripConv(sub.X) != ssa.Value(p) {
+								okDown = false
+								continue
+							}
+							if k, isK := constInt(sub.Y); !isK || k != 1 {
+								okDown = false
+							}
+						}
+						if okDown && init != nil {
+							bound = init
+						}
+					}
+				}
+				continue
+			}
 			if !ok || bo.Op != token.LSS {
 				continue
 			}
